@@ -1,1 +1,142 @@
+/* Contracts of unit kv_replay (property C11: "replay stops at the first incomplete record and skips records failing the CRC";
+ * "shows, for every key, the effect of the last operation on that key that had returned before the crash ... never a torn, foreign
+ * or resurrected value"; anchors: load() loop exit, openLogFile()).  Specification = the READER's view of the record format of
+ * unit kv_codec (len32 | op | klen32 | key | [exp64] | [vlen32 | val] | crc32), written over the bytes of the file, not from the code. */
 
+/* ---- the log file: an arbitrary byte sequence LOG[0..LOG_N) ; b = a record boundary (read position at the top of an iteration) */
+#define U32AT(o) ((uint32_t)((uint32_t)LOG[(o)] | ((uint32_t)LOG[(o) + 1] << 8) | ((uint32_t)LOG[(o) + 2] << 16) | ((uint32_t)LOG[(o) + 3] << 24)))
+#define U64AT(o) ((uint64_t)U32AT(o) | ((uint64_t)U32AT((o) + 4) << 32))
+#define REC_CAP ((uint32_t)(100 * 1024 * 1024))
+#define AVAIL (LOG_N - b)
+#define HAVE_LEN (AVAIL >= 4)
+#define TL ((size_t)U32AT(b))                              /* declared record length (payload + crc) */
+#define LEN_OK (TL >= 10 && TL <= REC_CAP)
+#define COMPLETE (HAVE_LEN && LEN_OK && AVAIL - 4 >= TL)   /* the whole record is in the file */
+#define P0 (b + 4)                                         /* file offset of the payload */
+#define OPB ((char)LOG[P0])
+#define STORED (U32AT(P0 + TL - 4))                        /* trailer */
+#define OP_S ((char)83)
+#define OP_D ((char)68)
+#define OP_E ((char)69)
+#define OP_X ((char)88)
+#define OP_OK (OPB == OP_S || OPB == OP_D || OPB == OP_E || OPB == OP_X)
+#define KL ((size_t)U32AT(P0 + 1))
+#define KEY_OK (KL >= 1 && KL <= 65536 && 5 + KL <= TL)
+#define FOFF (5 + KL)                                      /* payload offset of the first field after the key */
+/* S: vlen32 | val | crc */
+#define S_VL ((size_t)U32AT(P0 + FOFF))
+#define S_OK (FOFF + 4 <= TL && S_VL <= REC_CAP && FOFF + 4 + S_VL + 4 <= TL)
+/* E: exp64 | vlen32 | val | crc */
+#define E_EXP ((int64_t)U64AT(P0 + FOFF))
+#define E_VL ((size_t)U32AT(P0 + FOFF + 8))
+#define E_OK (FOFF + 12 <= TL && E_VL <= REC_CAP && FOFF + 12 + E_VL + 4 <= TL)
+/* X: exp64 | crc */
+#define X_OK (FOFF + 12 <= TL)
+#define PLAUSIBLE(ms) ((ms) > 0 && (ms) <= 10413792000000LL)
+#define NS(ms) ((int64_t)((ms) * 1000000))                 /* only used where ms <= 9.2e12 */
+#define NS_SAFE(ms) ((ms) <= 9223372036854LL)
+#define IMPL(a, b) (!(a) || (b))
+
+/* ---- one iteration of the replay loop (block target KVStore_load_step = the real `while (log.peek() != EOF) {...}` with the
+ * header turned into a guard and break/continue into status codes), for EVERY state satisfying the loop invariant of proof
+ * replay_loop (stream good, 0 <= pos <= n) and every file content.  Plain loop-free harness = complete proof. */
+#define STEP_SETUP \
+  size_t LOG_N = nondet_size_t(); __CPROVER_assume(LOG_N <= ((size_t)1 << 40)); \
+  uint8_t *LOG = (uint8_t *)malloc(LOG_N); __CPROVER_assume(LOG != NULL); \
+  iora_gfile gf; gf.exists = true; gf.p = LOG; gf.n = LOG_N; \
+  size_t b = nondet_size_t(); __CPROVER_assume(b <= LOG_N);                  /* loop invariant: read position inside the file */ \
+  iora_ifs log; log.open = true; log.fail = false; log.eof = false; log.p = LOG; log.n = LOG_N; log.pos = b; \
+  KVStore st; st._logPath = &gf; \
+  st._kv.has = nondet_bool(); st._kv.val.n = nondet_size_t(); st._kv.touched = false; st._kv.gtouched = false; \
+  st._expiry.has = nondet_bool(); st._expiry.val.expiry = nondet_i64(); st._expiry.val.timerId = nondet_u64(); st._expiry.touched = false; st._expiry.gtouched = false; \
+  bool kv_has0 = st._kv.has; iora_vec kv_val0 = st._kv.val; bool ex_has0 = st._expiry.has; ExpiryEntry ex_val0 = st._expiry.val; \
+  iora_tp now = nondet_i64(); GK = nondet_size_t(); \
+  G_alloc_cap = REC_CAP; G_step = IORA_STEP_NEXT; G_crc_called = false; G_ifs_boundary = nondet_size_t(); iora_exc = EXC_NONE; IORA_TRUE = 1; \
+  KVStore_load_step(&st, &log, now); \
+  bool touched = st._kv.touched || st._expiry.touched; \
+  iora_skey LK = st._kv.touched ? st._kv.lastkey : st._expiry.lastkey; \
+  bool crc_match = G_crc_called && G_crc_ret == STORED; \
+  IORA_CANARY("h_step: returns"); \
+  if (G_step == IORA_STEP_BREAK) { IORA_CANARY("h_step: break"); } \
+  if (G_step == IORA_STEP_CONTINUE) { IORA_CANARY("h_step: continue"); } \
+  if (touched && OPB == OP_S && LK.is_g) { IORA_CANARY("h_step: S applied to the ghost key"); } \
+  if (touched && OPB == OP_E && LK.is_g && st._kv.has) { IORA_CANARY("h_step: E applied to the ghost key"); } \
+  if (touched && OPB == OP_X && LK.is_g) { IORA_CANARY("h_step: X applied to the ghost key"); } \
+  if (touched && OPB == OP_D) { IORA_CANARY("h_step: D applied"); }
+#define KV (st._kv)
+#define EX (st._expiry)
+#define UNCHANGED_KV (KV.has == kv_has0 && KV.val.p == kv_val0.p && KV.val.n == kv_val0.n)
+#define UNCHANGED_EX (EX.has == ex_has0 && EX.val.expiry == ex_val0.expiry && EX.val.timerId == ex_val0.timerId)
+
+/* proof "step_safety": every built-in check (each read of the record buffer is inside it: the bounds test precedes the read it guards),
+ * shim preconditions (read destinations, string(ptr,n) source, iterator ranges, allocation cap) */
+void h_step_safety(void)
+{
+  STEP_SETUP
+  __CPROVER_assert(iora_exc == EXC_NONE || iora_exc == EXC_KVStoreException, "X1 only KVStoreException");
+}
+
+/* proof "step_framing": framing of the iteration */
+void h_step_framing(void)
+{
+  STEP_SETUP
+  __CPROVER_assert(IMPL(AVAIL == 0, G_step == IORA_STEP_NEXT && !touched && log.pos == b && !log.fail), "F0 at the end of the file the loop is left and nothing happens");
+  __CPROVER_assert(IMPL(iora_exc == EXC_NONE, G_ifs_boundary == b), "F1 peek() is called exactly at the record boundary");
+  __CPROVER_assert(IMPL(AVAIL > 0 && !COMPLETE && iora_exc == EXC_NONE, G_step == IORA_STEP_BREAK), "F2 short read or invalid length => the loop is left (break)");
+  __CPROVER_assert(IMPL(AVAIL > 0 && !COMPLETE, !touched && UNCHANGED_KV && UNCHANGED_EX), "F3 short read or invalid length => NO state change");
+  __CPROVER_assert(IMPL(COMPLETE, G_step != IORA_STEP_BREAK && iora_exc == EXC_NONE), "F4 a complete record never ends the replay");
+  __CPROVER_assert(IMPL(COMPLETE, log.pos == b + 4 + TL && !log.fail && log.open), "F5 a complete record is consumed exactly (next boundary = b + 4 + len32), applied or skipped");
+  __CPROVER_assert(IMPL(touched, COMPLETE), "F6 a record is applied only if it is complete");
+}
+
+/* proof "step_crc": CRC gating */
+void h_step_crc(void)
+{
+  STEP_SETUP
+  __CPROVER_assert(IMPL(COMPLETE, G_crc_called && G_crc_n == TL - 4), "C1 crc32 is computed over len32-4 bytes of every complete record");
+  __CPROVER_assert(IMPL(COMPLETE && GK < TL - 4, G_crc_p[GK] == LOG[P0 + GK]), "C2 the bytes crc32 is computed over are the record's payload bytes (arbitrary byte GK)");
+  __CPROVER_assert(IMPL(touched, crc_match), "C3 a record is applied only if crc32(payload) equals the stored trailer");
+  __CPROVER_assert(IMPL(COMPLETE && !crc_match, G_step == IORA_STEP_CONTINUE && !touched && UNCHANGED_KV && UNCHANGED_EX), "C4 CRC mismatch => skipped, no state change");
+}
+
+/* proof "step_decode_key": op and key are the inverse of enc */
+void h_step_decode_key(void)
+{
+  STEP_SETUP
+  __CPROVER_assert(IMPL(touched, OP_OK && KEY_OK), "D1 applied => known op and 1 <= klen <= 65536 inside the record");
+  __CPROVER_assert(IMPL(COMPLETE && crc_match && !(OP_OK && KEY_OK), G_step == IORA_STEP_CONTINUE && !touched), "D2 unknown op / bad key length => skipped");
+  __CPROVER_assert(IMPL(touched, LK.n == KL), "D3 decoded key length == klen32");
+  __CPROVER_assert(IMPL(touched && GK < KL, (uint8_t)LK.p[GK] == LOG[P0 + 5 + GK]), "D4 decoded key bytes == record bytes 5..5+klen (arbitrary byte GK)");
+  __CPROVER_assert(IMPL(KV.touched && EX.touched, KV.lastkey.p == EX.lastkey.p && KV.lastkey.n == EX.lastkey.n && KV.lastkey.is_g == EX.lastkey.is_g), "D5 value map and expiry map are updated under the same key");
+  __CPROVER_assert(IMPL(touched && !LK.is_g, UNCHANGED_KV && UNCHANGED_EX), "D6 frame: a record for another key leaves the entry of the ghost key untouched");
+}
+
+/* proof "step_apply_SD": S and D records */
+void h_step_apply_sd(void)
+{
+  STEP_SETUP
+  __CPROVER_assert(IMPL(COMPLETE && crc_match && OPB == OP_S && KEY_OK && S_OK, KV.touched && EX.touched), "S1 a complete, CRC-correct, well-formed S record IS applied (acknowledged writes are recovered)");
+  __CPROVER_assert(IMPL(touched && OPB == OP_S, S_OK), "S2 S applied => vlen32 and value inside the record");
+  __CPROVER_assert(IMPL(touched && OPB == OP_S && LK.is_g, KV.has && KV.val.n == S_VL && !EX.has), "S3 S: key present with |val| == vlen32; a plain set clears the expiry");
+  __CPROVER_assert(IMPL(touched && OPB == OP_S && LK.is_g && GK < S_VL, KV.val.p[GK] == LOG[P0 + FOFF + 4 + GK]), "S4 S: value bytes == record bytes (arbitrary byte GK)");
+  __CPROVER_assert(IMPL(COMPLETE && crc_match && OPB == OP_S && KEY_OK && !S_OK, !touched), "S5 malformed S => skipped");
+  __CPROVER_assert(IMPL(COMPLETE && crc_match && OPB == OP_D && KEY_OK, KV.touched && EX.touched), "D7 a complete, CRC-correct D record IS applied");
+  __CPROVER_assert(IMPL(touched && OPB == OP_D && LK.is_g, !KV.has && !EX.has), "D8 D: key and expiry removed");
+}
+
+/* proof "step_apply_EX": E and X records (decoding; the expired-at-load / implausible cases are clauses of unit kv_expiry, C12) */
+void h_step_apply_ex(void)
+{
+  STEP_SETUP
+  __CPROVER_assert(IMPL(COMPLETE && crc_match && OPB == OP_E && KEY_OK && E_OK && PLAUSIBLE(E_EXP), KV.touched && EX.touched), "E1 a complete, CRC-correct, well-formed E record IS applied");
+  __CPROVER_assert(IMPL(touched && OPB == OP_E, E_OK && PLAUSIBLE(E_EXP)), "E2 E applied => fields inside the record, expiry plausible");
+  __CPROVER_assert(IMPL(touched && OPB == OP_E && LK.is_g && NS_SAFE(E_EXP) && NS(E_EXP) > now, KV.has && KV.val.n == E_VL && EX.has && EX.val.expiry == NS(E_EXP) && EX.val.timerId == 0),
+                   "E3 E (not yet expired): key present with |val| == vlen32 and expiry == exp64 ms");
+  __CPROVER_assert(IMPL(touched && OPB == OP_E && LK.is_g && NS_SAFE(E_EXP) && NS(E_EXP) > now && GK < E_VL, KV.val.p[GK] == LOG[P0 + FOFF + 12 + GK]), "E4 E: value bytes == record bytes (arbitrary byte GK)");
+  __CPROVER_assert(IMPL(COMPLETE && crc_match && OPB == OP_E && KEY_OK && !(E_OK && PLAUSIBLE(E_EXP)), !touched), "E5 malformed E => skipped");
+  __CPROVER_assert(IMPL(touched && OPB == OP_X, X_OK), "X1 X applied => exp64 inside the record");
+  __CPROVER_assert(IMPL(COMPLETE && crc_match && OPB == OP_X && KEY_OK && !X_OK, !touched), "X2 malformed X => skipped");
+  __CPROVER_assert(IMPL(OPB == OP_X && touched && LK.is_g, kv_has0), "X3 X is applied only to a present key");
+  __CPROVER_assert(IMPL(COMPLETE && crc_match && OPB == OP_X && KEY_OK && X_OK && E_EXP == IORA_LIMIT_int64_t_min && touched && LK.is_g, UNCHANGED_KV && !EX.has), "X4 X with the no-expiry sentinel (persist): expiry cleared, value untouched");
+  __CPROVER_assert(IMPL(OPB == OP_X && touched && LK.is_g && PLAUSIBLE(E_EXP) && NS_SAFE(E_EXP) && NS(E_EXP) > now, UNCHANGED_KV && EX.has && EX.val.expiry == NS(E_EXP)), "X5 X (future expiry): expiry == exp64 ms, value untouched");
+}
